@@ -454,9 +454,9 @@ class Ctx:
         (EVIDENCE_DIR / f"{self.prop}.json").write_text(json.dumps(ev, indent=1, default=repr) + "\n")
         if os.environ.get("VERIF_DEBUG"):
             for v in self.violations[:8]:
-                print("DBG-VIOL", json.dumps(v, default=repr)[:1500], file=sys.stderr)
+                print("DBG-VIOL", json.dumps(v, default=repr)[:int(os.environ.get("VERIF_DEBUG_LEN", "1500"))], file=sys.stderr)
             for d in self.disagreements[:8]:
-                print("DBG-DISAGREE", json.dumps(d, default=repr)[:1500], file=sys.stderr)
+                print("DBG-DISAGREE", json.dumps(d, default=repr)[:int(os.environ.get("VERIF_DEBUG_LEN", "1500"))], file=sys.stderr)
         for ln in lines:
             print(ln)
         print(
